@@ -328,7 +328,7 @@ impl<'tx> TxInner<'tx> {
         }
         if let TxLock::Rw(file) = &mut self.lock {
             // write meta page to file
-            {
+            let meta_written = {
                 let mut buf = vec![0; self.db.inner.pagesize as usize];
 
                 #[allow(clippy::cast_ptr_alignment)]
@@ -348,17 +348,20 @@ impl<'tx> TxInner<'tx> {
                 m.hash = m.hash_self();
 
                 file.seek(SeekFrom::Start(self.db.inner.pagesize * meta_page_id))?;
-                file.write_all(buf.as_slice())?;
-            }
+                file.write_all(buf.as_slice())
+            };
 
-            // The new meta page is now visible through the memory map, so from here on every
-            // transaction on this handle works from the new state: the shared freelist has to
-            // match it even if making the meta page durable fails below. Otherwise the stale
-            // freelist would hand out pages that the new state is made of.
-            {
+            // Once the new meta page is visible through the memory map, every transaction on
+            // this handle works from the new state: the shared freelist has to match it even if
+            // the commit fails below. Otherwise the stale freelist would hand out pages that
+            // the new state is made of. A write that fails part-way can still have stored the
+            // whole meta record (it sits at the start of the page), so after a failed write the
+            // memory map decides.
+            if meta_written.is_ok() || self.db.inner.meta()?.tx_id == self.meta.tx_id {
                 let mut lock = self.db.inner.freelist.lock()?;
                 *lock = freelist.inner.clone();
             }
+            meta_written?;
 
             file.flush()?;
             file.sync_all()?;
